@@ -978,6 +978,9 @@ def _get_unit_data_from_expr(unit_expr, unit_symbol_lut, derived_symbols=None):
     if isinstance(unit_expr, Number):
         if unit_expr is sympy_one:
             return (1.0, sympy_one)
+        if not unit_expr.is_finite:
+            # Unit("0/0") evaluates to nan
+            raise UnitParseError(f"Invalid unit expression '{unit_expr}'.")
         return (float(unit_expr), sympy_one)
 
     if isinstance(unit_expr, Symbol):
